@@ -38,6 +38,7 @@ func runC18(w *World, r *Report) {
 	ruleTypeErr(w, r)
 	ruleFold(w, r)
 	ruleIfaceEq(w, r)
+	ruleBoolArity(w, r)
 }
 
 // ---- R-ALIAS ----------------------------------------------------------------
